@@ -140,24 +140,37 @@ class Run:
                 self.ci_shapes[i] = so.f17_shape(c)
         # ---- the remaining oracles apply to scenarios inside the properties' domain
         if in_domain:
-            for fn in (so.check_c03, so.check_c07, so.check_c04):
-                r = fn(c)
+            for pid, fn in (('C03', so.check_c03), ('C07', so.check_c07), ('C04', so.check_c04)):
+                r = self.safe(pid, fn, c)
                 if r:
                     vs.append(r)
-            r = so.check_c02(c)
+            r = self.safe('C02', so.check_c02, c)
             if r:
                 vs.append(r)
-            r = so.check_c08(c, self.quarantine)
+            r = self.safe('C08', so.check_c08, c, self.quarantine)
             if r:
                 vs.append(r)
             if params['dir'] == 'bwd':
                 if reads:
                     vs.append(so.V('C09', 'clock-read', f'backward calc read the clock {len(reads)} times', c))
-                r = so.check_c09(c)
+                r = self.safe('C09', so.check_c09, c)
                 if r:
                     vs.append(r)
                 self.count('probe.c09_judged')
         return vs
+
+    def safe(self, pid, fn, *args):
+        """an oracle that cannot cope with a (corrupt) result must not take the other properties down: for the
+        selected property that is a harness error, for the others it is only counted"""
+        try:
+            return fn(*args)
+        except core.HarnessError:
+            raise
+        except Exception as e:  # noqa
+            if pid == self.prop:
+                raise core.HarnessError(f'oracle of {pid} failed on seed {self.sc.get("seed")}: {type(e).__name__}: {e}')
+            self.count('oracle_gave_up.' + pid)
+            return None
 
     def ci_views(self):
         return list(self.ci_pool)
@@ -245,13 +258,39 @@ class Run:
                     out.add(r['name'])
                 elif cal['t'] == 'direct' and not cal['map']:
                     out.add(r['name'])
-                elif cal['t'] == 'weekly' and (cal['units'] == 0 or (cal.get('end') and params['dir'] == 'fwd')
-                                               or (cal.get('start') and params['dir'] == 'bwd')):
+                elif cal['t'] == 'weekly' and cal['units'] == 0:
+                    out.add(r['name'])
+                elif cal['t'] == 'weekly' and c.proj is not None and (
+                        (cal.get('end') and params['dir'] == 'fwd' and D(cal['end']) < c.proj and not cal.get('start')) or
+                        (cal.get('start') and params['dir'] == 'bwd' and D(cal['start']) > c.proj and not cal.get('end'))):
                     out.add(r['name'])
         return out
 
     def fragile(self, params):
-        """scenario features for which 'must return' is not claimed"""
+        """scenario features for which 'must return' is not claimed: the backward scheduler gives up after
+        1000 consecutive unusable days, so a lot of work on a very sparse resource is legitimately diagnosed"""
+        if params['dir'] != 'bwd':
+            return False
+        st, sc = self.st, self.sc
+        work = {}
+        for n in st.order_listed:
+            kw = st.spec[n].get('kw', {})
+            if st.is_leaf(n) and not kw.get('milestone'):
+                est = kw.get('estimate')
+                if est is None:
+                    est = params.get('default_estimate') or 0
+                work[kw.get('resource')] = work.get(kw.get('resource'), 0) + max(est - (kw.get('spent') or 0), 0)
+        for rn, wk in work.items():
+            r = self.w.resources.get(rn) if rn in params.get('resources', []) else None
+            if r is None:
+                weekly = 40
+            else:
+                base = DT(2031, 1, 6)
+                vals = [(r.cap(base + _dt.timedelta(days=i)) if hasattr(r, 'cap') else
+                         r.get_available_units(base + _dt.timedelta(days=i), None)) or 0 for i in range(7)]
+                weekly = sum(v for v in vals if v > 0)
+            if weekly <= 0 or wk / weekly * 7 > 300:
+                return True
         return False
 
     # ---- balancing off: removing an unrelated task changes nothing (C08)
@@ -363,6 +402,17 @@ def regenerate(seed, prop, quarantine=()):
 def replay(trace, prop, keep_log=False):
     sc = _copy.deepcopy(trace)
     return Run(sc, prop, trace.get('quarantine', ()), keep_log).run()
+
+
+def amplify(trace, prop):
+    """C06 only: repeat the first calc many times on the same and on fresh scheduler objects"""
+    if prop != 'C06':
+        return None
+    sc = _copy.deepcopy(trace)
+    op0 = sc['ops'][0]
+    sc['ops'] = [op0] + [{'op': 'calc', 'sched': op0['sched'], 'fresh': i % 2 == 0, 'clock': op0['clock'], 'equal_to': 0}
+                         for i in range(60)]
+    return sc
 
 
 def shrink(trace, prop, clause):
@@ -496,7 +546,7 @@ def chunk(payload):
 
 TIER_RUNS = {
     'quick': {'default': 12000},
-    'thorough': {'default': 600000},
+    'thorough': {'default': 300000},
 }
 
 QUARANTINE_OF = {
